@@ -177,8 +177,11 @@ pub fn strategy(flow_focus: bool, max: usize, max_streams: usize) -> impl Strate
     // who withholds credit: 0 = the client only, 1 = the backend only, 2 = both (head-of-line finding: safety
     // oracles only when it stalls), 3 = nobody
     let mode = if flow_focus { prop_oneof![3 => Just(0u8), 3 => Just(1u8), 1 => Just(2u8), 1 => Just(3u8)].boxed() } else { prop_oneof![1 => Just(2u8), 3 => Just(3u8)].boxed() };
-    (any::<u64>(), any::<bool>(), peer(flow_focus), peer(flow_focus), prop::collection::vec(stream_spec(max), 1..=max_streams), mode, proptest::option::weighted(0.25, (1u16..80, 0u16..40)), (if flow_focus { Just(None).boxed() } else { proptest::option::weighted(0.08, (0u16..200, 2000u16..2600, 10usize..13, 20_000usize..60_000)).boxed() })).prop_map(
-        move |(seed, backend_h2, mut client, mut backend, mut streams, mode, slow_settings, bulk)| {
+    (any::<u64>(), any::<bool>(), peer(flow_focus), peer(flow_focus), prop::collection::vec(stream_spec(max), 1..=max_streams), mode, proptest::option::weighted(0.25, (1u16..80, 0u16..40)), (if flow_focus { Just(None).boxed() } else { proptest::option::weighted(0.08, (0u16..200, 2000u16..2600, 10usize..13, 20_000usize..60_000)).boxed() }),
+        // long-lived connection: 70..90 single-frame uploads (DATA carrying END_STREAM), together above the 1 MiB
+        // connection window sozu advertises, so the transfer only completes if sozu keeps replenishing it
+        (if flow_focus { proptest::option::weighted(0.06, (70usize..90, prop_oneof![Just(16384usize), 12_000usize..16384])).boxed() } else { Just(None).boxed() })).prop_map(
+        move |(seed, backend_h2, mut client, mut backend, mut streams, mode, slow_settings, bulk, many)| {
             if flow_focus {
                 // keep transfers short enough for drip schedules to finish: body sizes capped
                 for s in streams.iter_mut() {
@@ -202,6 +205,9 @@ pub fn strategy(flow_focus: bool, max: usize, max_streams: usize) -> impl Strate
                 streams[1].resp_len = 17;
                 client_read_pause = Some((start, dur));
             }
+            if let Some((count, len)) = many {
+                streams = (0..count).map(|_| StreamSpec { req_len: len, resp_len: 3, req_frames: vec![16384], req_pad: None, resp_frames: vec![], resp_pad: None }).collect();
+            }
             let make_generous = |p: &mut PeerSpec, biggest: usize| {
                 p.auto = true;
                 p.resettle = None;
@@ -213,7 +219,7 @@ pub fn strategy(flow_focus: bool, max: usize, max_streams: usize) -> impl Strate
             let mode = if mode == 1 && !backend_h2 { 0 } else { mode };
             // the bulk scenario needs a client window above the download, or flow control stops sozu long
             // before the socket does
-            let mode = if client_read_pause.is_some() { 3 } else { mode };
+            let mode = if client_read_pause.is_some() || many.is_some() { 3 } else { mode };
             if mode == 0 || mode == 3 {
                 make_generous(&mut backend, biggest_req);
             }
@@ -568,6 +574,7 @@ fn scenario_inner(lab: &mut H2Lab, case: &Case, tag: &str) -> CheckResult {
     rep.class_if(zero_wait && big, "zero_window_wait_and_body_over_initial_window");
     rep.class_if(case.streams.len() >= 2, "concurrent_streams_2+");
     rep.class_if(case.client_read_pause.is_some(), "bulk_download_with_client_read_pause_and_upload");
+    rep.class_if(case.streams.len() >= 60, "60+_single_frame_uploads_above_the_connection_window");
     rep.class_if(case.slow_settings.is_some() && case.streams.len() >= 2, "stream_opened_while_backend_settings_awaited");
     rep.class_if(boundary, "size_within_9_of_a_boundary");
     rep.class_if(case.client.resettle.is_some() || case.backend.resettle.is_some(), "mid_connection_settings");
